@@ -435,6 +435,20 @@ Proof.
   intros k l x H Hin E. subst. assert (mem_str x l = true) by (apply mem_str_In; exact Hin). congruence.
 Qed.
 
+Lemma core_items_members : forall l, forallb core_item l = true -> forallb core_member l = true.
+Proof.
+  induction l as [|x l IH]; intros H; simpl in *; [reflexivity|].
+  apply andb_true_iff in H. destruct H as [H1 H2]. rewrite (IH H2), andb_true_r.
+  unfold core_member. destruct x; try discriminate; reflexivity.
+Qed.
+
+Lemma core_items_nokeys : forall l, forallb core_item l = true ->
+  forall x k, In x l -> In k (prop_keys x) -> False.
+Proof.
+  intros l H x k Hx Hk. rewrite forallb_forall in H. specialize (H x Hx).
+  destruct x; try discriminate; exact Hk.
+Qed.
+
 Section InvProofs.
   Variable md : N.
   Variable S : spec.
@@ -665,13 +679,15 @@ Section InvProofs.
         pose proof (le_parse_list rec Hm l s1) as L. rewrite E2 in L. simpl in L. destruct L as (L1 & L2 & _).
         assert (CA : core_anon x = true).
         { unfold core_anon, core_member in *. destruct x; try discriminate; simpl in *; try reflexivity.
-          exact Hc1. }
+          rewrite ?orb_false_r in Hc1. exact Hc1. }
         pose proof (Hrec None x s i s1 E1 (L1 He) (L2 Ho) HI CA (fun k => Hkeys x k (or_introl eq_refl))) as (I1 & A).
         destruct (IH _ _ _ Hc2 (fun y k Hy => Hkeys y k (or_intror Hy)) E2 He Ho I1) as (I2 & F).
         split; [exact I2|]. constructor; [|exact F].
         unfold core_member in Hc1. destruct x; try discriminate; simpl in A.
         + apply good_member_ref, A.
         + apply A.
+        + destruct A as (id & -> & _). exists 1%nat, ([], []). simpl. auto.
+        + destruct A as (id & -> & _). exists 1%nat, ([], []). simpl. auto.
     Qed.
   End WithRec.
 
@@ -906,6 +922,26 @@ Section StepProofs.
         destruct (items_ok S rec Hrec _ _ _ _ _ Hc E2 (L1 He) (L2 Ho) (Inv_bump _ I1)) as (I2 & A2).
         eapply G; [exact H | exact He | exact I2 | reflexivity | apply clean_mk; discriminate | | simpl; lia].
         exists 1%nat, ([], []). simpl. auto.
+      - (* OneOf *)
+        simpl in Hc.
+        destruct (parse_list rec l s) as [ms s1] eqn:E.
+        match type of H with finish _ _ ?x _ = _ => pose proof (le_finish S (Some n) x (bump s1)) as L end.
+        rewrite H in L. simpl in L. destruct L as (L1 & L2 & _). simpl in L1, L2.
+        destruct (list_ok S rec Hrec Hm _ _ _ _ (core_items_members _ Hc)
+                    (fun x k Hx Hkx => False_ind _ (core_items_nokeys _ Hc x k Hx Hkx)) E (L1 He) (L2 Ho) HI) as (I1 & _).
+        eapply G; [exact H | exact He | apply Inv_bump, I1 | reflexivity
+                  | apply clean_mk; intros n0; destruct (filter_members ms); discriminate | | simpl; lia].
+        exists 1%nat, ([], []). simpl. auto.
+      - (* AnyOf *)
+        simpl in Hc.
+        destruct (parse_list rec l s) as [ms s1] eqn:E.
+        match type of H with finish _ _ ?x _ = _ => pose proof (le_finish S (Some n) x (bump s1)) as L end.
+        rewrite H in L. simpl in L. destruct L as (L1 & L2 & _). simpl in L1, L2.
+        destruct (list_ok S rec Hrec Hm _ _ _ _ (core_items_members _ Hc)
+                    (fun x k Hx Hkx => False_ind _ (core_items_nokeys _ Hc x k Hx Hkx)) E (L1 He) (L2 Ho) HI) as (I1 & _).
+        eapply G; [exact H | exact He | apply Inv_bump, I1 | reflexivity
+                  | apply clean_mk; intros n0; destruct (filter_members ms); discriminate | | simpl; lia].
+        exists 1%nat, ([], []). simpl. auto.
       - (* AllOf *)
         simpl in Hc.
         destruct (parse_list rec l s) as [ms s1] eqn:E.
@@ -923,6 +959,16 @@ Section StepProofs.
         exists 1%nat, ([], []). simpl. auto.
       - (* EnumN *)
         eapply G; [exact H | exact He | apply Inv_bump, HI | reflexivity | apply clean_mk; discriminate | | simpl; lia].
+        exists 1%nat, ([], []). simpl. auto.
+      - (* MapN *)
+        simpl in Hc.
+        destruct (rec None nd s) as [ap s1] eqn:E.
+        match type of H with finish _ _ ?x _ = _ => pose proof (le_finish S (Some n) x (bump s1)) as L end.
+        rewrite H in L. simpl in L. destruct L as (L1 & L2 & _). simpl in L1, L2.
+        assert (CA : core_anon nd = true) by (unfold core_anon; rewrite Hc, orb_true_r; reflexivity).
+        assert (NK : forall k, In k (prop_keys nd) -> ~ In k (map fst S)) by (destruct nd; try discriminate; intros k0 []).
+        pose proof (Hrec None nd s ap s1 E (L1 He) (L2 Ho) HI CA NK) as (I1 & _).
+        eapply G; [exact H | exact He | apply Inv_bump, I1 | reflexivity | apply clean_mk; discriminate | | simpl; lia].
         exists 1%nat, ([], []). simpl. auto.
     Qed.
 
@@ -1319,7 +1365,8 @@ Section Static.
         destruct (rec None x s) as [i s1] eqn:E1. destruct (parse_list rec l s1) as [is_ s2] eqn:E2.
         inversion H; subst.
         assert (CA : core_anon x = true).
-        { unfold core_anon, core_member in *. destruct x; try discriminate; simpl in *; try reflexivity. exact Hc1. }
+        { unfold core_anon, core_member in *. destruct x; try discriminate; simpl in *; try reflexivity.
+          rewrite ?orb_false_r in Hc1. exact Hc1. }
         assert (SL : (slack None x <= 3)%N) by (destruct x; unfold slack; lia).
         assert (HF1 : (4 * N.of_nat b + slack None x <= F)%N) by lia.
         assert (P1 : pre s b (4 * N.of_nat b + slack None x)) by (eapply pre_weaken; [|exact P]; lia).
@@ -1421,6 +1468,28 @@ Section Static.
             { eapply items_tr; [exact Hc | exact E2 | lia | | exact Hr].
               apply pre_bump. eapply post_pre; [exact Q1|]. eapply pre_weaken; [|exact P]. lia. }
             eapply Fin; [|exact H]. eapply post_trans; [apply post_bump; exact Q1 | exact Q2].
+          + (* OneOf *)
+            simpl in Hc.
+            destruct (parse_list rec l s) as [ms s1] eqn:E.
+            unfold slack in HF, P.
+            assert (Q : post s s1 b None).
+            { eapply list_tr; [exact (core_items_members _ Hc) | | | exact E | lia | eapply pre_weaken; [|exact P]; lia].
+              - intros x Hx k Hkx. exfalso. exact (core_items_nokeys _ Hc x k Hx Hkx).
+              - intros x Hx m Hmm. apply Hr. clear - Hx Hmm. simpl.
+                induction l as [|y l IH]; [contradiction|]. apply in_or_app.
+                destruct Hx as [->|Hx]; [left; exact Hmm | right; apply IH, Hx]. }
+            eapply Fin; [apply post_bump; exact Q | exact H].
+          + (* AnyOf *)
+            simpl in Hc.
+            destruct (parse_list rec l s) as [ms s1] eqn:E.
+            unfold slack in HF, P.
+            assert (Q : post s s1 b None).
+            { eapply list_tr; [exact (core_items_members _ Hc) | | | exact E | lia | eapply pre_weaken; [|exact P]; lia].
+              - intros x Hx k Hkx. exfalso. exact (core_items_nokeys _ Hc x k Hx Hkx).
+              - intros x Hx m Hmm. apply Hr. clear - Hx Hmm. simpl.
+                induction l as [|y l IH]; [contradiction|]. apply in_or_app.
+                destruct Hx as [->|Hx]; [left; exact Hmm | right; apply IH, Hx]. }
+            eapply Fin; [apply post_bump; exact Q | exact H].
           + (* AllOf *)
             simpl in Hc.
             destruct (parse_list rec l s) as [ms s1] eqn:E.
@@ -1438,6 +1507,18 @@ Section Static.
             eapply Fin; [|exact H]. apply post_bump, post_refl. eapply pre_weaken; [|exact P]. lia.
           + (* EnumN *)
             eapply Fin; [|exact H]. apply post_bump, post_refl. eapply pre_weaken; [|exact P]. lia.
+          + (* MapN *)
+            simpl in Hc.
+            destruct (rec None nd s) as [ap s1] eqn:E.
+            unfold slack in HF, P.
+            assert (SL : slack None nd = 1%N) by (destruct nd; try discriminate; reflexivity).
+            assert (Q : post s s1 b None).
+            { apply (Htr None nd s b ap s1 E); rewrite ?SL.
+              - lia.
+              - eapply pre_weaken; [|exact P]. lia.
+              - intros m Hmm. apply Hr. exact Hmm.
+              - split; [unfold core_anon; rewrite Hc, orb_true_r; reflexivity | destruct nd; try discriminate; intros k0 []]. }
+            eapply Fin; [apply post_bump; exact Q | exact H].
         - destruct Side as (Hc & Hk).
           assert (Out : forall t, post s t b None -> s' = t ->
                     events s' = [] /\ oof s' = false /\ TI s' /\ stack s' = stack s /\ depth s' = depth s
@@ -1856,3 +1937,22 @@ Proof.
     apply (Permutation_in _ (Permutation_map fst (Permutation_sym P))) in El'.
     apply mem_str_In in El'. congruence.
 Qed.
+
+(* non-vacuity of the widened fragment: top-level map, top-level unions, allOf with a primitive member *)
+Definition sIndex : str := [73;110;100;101;120].
+Definition sEither : str := [69;105;116;104;101;114].
+Definition sMixed : str := [77;105;120;101;100].
+Definition spec_wide : spec :=
+  [(sIndex, MapN (Ref sBase));
+   (sEither, OneOf [Ref sBase; Prim PString; EnumN]);
+   (sMixed, AllOf [Ref sBase; Prim PString; Obj [(snote, Arr EnumN)] [snote; slabel]]);
+   (sAccount, AnyOf [Ref sEither; Ref sIndex]);
+   (sBase, Obj [(sident, Prim PInteger); (slabel, Prim PString)] [sident])].
+Definition rk_wide : list (str * nat) :=
+  [(sAccount, 2%nat); (sIndex, 1%nat); (sEither, 1%nat); (sMixed, 1%nat); (sBase, O)].
+Example wide_guard_nonvacuous :
+  (core_spec spec_wide = true /\ ranked_b rk_wide spec_wide = true /\ depth_ok rk_wide spec_wide default_max_depth = true)
+  /\ model_fields (parse_doc default_max_depth spec_wide) sMixed
+     = Some [(sident, true, TPrim PInteger); (slabel, true, TPrim PString); (snote, true, TList TEnum)]
+  /\ model_fields (parse_doc default_max_depth spec_wide) sIndex = Some [].
+Proof. vm_compute. repeat split. Qed.
